@@ -156,6 +156,24 @@ FunctionNodeSet::execute(
 
         return theResult;
     }
+    else if (m_convertString == true &&
+             (theType == XObject::eTypeNumber || theType == XObject::eTypeBoolean))
+    {
+        // EXSLT: an argument that is neither a node-set nor a result tree fragment
+        // is converted to a string, exactly as a string argument is.
+        const XObjectPtr    theString(
+                        executionContext.getXObjectFactory().createString(
+                            args[0]->str(executionContext)));
+
+        const XObjectPtr    theResult(
+                        XalanDocumentFragmentXNodeSetBaseProxy::create(
+                            executionContext,
+                            theString));
+
+        executionContext.getXObjectFactory().holdReference(theResult);
+
+        return theResult;
+    }
     else
     {
         const GetCachedString   theGuard(executionContext);
